@@ -165,8 +165,17 @@ func TestRun(t *testing.T) {
 	for i := range scheds {
 		one(&scheds[i], *fSeed*1000003+int64(i))
 	}
+	// "v<k>" in the option string selects another family of seeded executions (extra thorough runs)
+	var variant int64
+	for _, o := range strings.Split(*fOpt, ",") {
+		var v int64
+		if n, _ := fmt.Sscanf(o, "v%d", &v); n == 1 {
+			variant = v
+		}
+	}
 	for i := 0; i < *fN; i++ {
-		one(nil, *fSeed*7919+int64(i))
+		// (shards get consecutive base seeds: the stride must exceed any shard's number of executions)
+		one(nil, *fSeed*1000003+500000+int64(i)+variant*1000000007000)
 	}
 	st.Distinct = len(seen)
 	st.Events = tw.Events()
